@@ -14,6 +14,18 @@ CHECKS = {
    design="5/C19", technique="Coq invariant proof over translated program; line-level trace correspondence",
    note="Trusted: Coq kernel; tools/gen_gcguard.py translator; CPython line atomicity and threading.Lock semantics; "
         "extraction (ExtrOcamlBasic) + OCaml driver. No axioms (Print Assumptions: closed)."),
+ "C01": dict(
+   text="Machine-checked proof (Coq): C01_build_sound / C01_tree state, for every width, constant, assignment and operation tree, "
+        "that what the construction model returns denotes the SMT-LIB value of the written tree; C01b_* state that every concrete "
+        "folding function generated from backend_concrete/bv.py is its SMT-LIB operator (all widths, all values; Reverse excepted). "
+        "Tie: bv.py is re-translated on every run and each generated function is run against the real one; the hand-written "
+        "model of operations.py/simplifications.py/ast/bool.py:If/Base.__new__ is compared step by step with the real claripy on "
+        "rule templates and random programs.  Rules the model marks Unmodelled (Extract/Concat/Reverse simplifiers, the three "
+        "compare-against-constant helpers, min/max idiom, rotate-shift-mask) are covered by the direct property test only "
+        "(extracted SMT-LIB evaluator as oracle) -- that part is testing, not proof.",
+   design="5/C01", technique="Coq soundness proof of a rewriting model + translated concrete backend; one-step AST correspondence",
+   note="Trusted: Coq kernel; tools/py2coq.py; Model/Ast.v operator-name->meaning table; extraction + OCaml driver; "
+        "hash-consing identity modelled as structural equality. No axioms (all Print Assumptions closed)."),
 }
 
 REASONS = {}
